@@ -25,6 +25,7 @@ def value_corpus(F, tier, name):
     recs += gen.g_pow5_thresholds(F, rng, tier)
     recs += gen.g_limb_crossers(F, rng, tier)
     recs += gen.g_pow2_digits(F, rng, tier)
+    recs += gen.g_trailing_zeros(F, rng, tier)
     recs += gen.g_zero_limbs(F, rng, tier)
     recs += gen.g_sparse_bigmant(F, rng, 10 if q else 200) if F.name == "f64" else []
     recs += gen.g_budget_splits(F, rng, tier)[:: 3 if q else 1]
@@ -584,6 +585,7 @@ def c05(tier):
         inputs += gen.g_exact_products(F, rng, tier)[:: 4 if q else 1]
         inputs += gen.g_tie_digit_counts(F, rng, tier)
         inputs += gen.g_pow2_digits(F, rng, tier)
+        inputs += gen.g_trailing_zeros(F, rng, tier)
         inputs += gen.g_limb_crossers(F, rng, tier)[:: 3 if q else 1]
         inputs += gen.g_sparse_bigmant(F, rng, 6 if q else 100) if F.name == "f64" else []
         inputs += gen.g_zero_limbs(F, rng, tier)[:: 3 if q else 1]
